@@ -224,7 +224,11 @@ def cases_for(rng, n, ctx, tmp):
         if kind == 'dict':
             x = {'a': make_structure(rng, 'obs'), 'b': {'c': make_structure(rng, 'list'), 'd': 'text', 'e': [1, 2.5, None]},
                  'corr': make_structure(rng, 'corr'), 'key 3': make_structure(rng, 'array')}
-            if i % 3 == 2:
+            if (i // len(kinds)) % 4 == 1:
+                # the smallest dictionaries: exactly one structure (of any kind), at the top or one level down; an empty sub-dictionary beside it
+                one = make_structure(rng, str(rng.choice(['obs', 'list', 'array', 'corr'])))
+                x = {'only': one} if rng.random() < 0.5 else {'outer': {'inner': one, 'note': 'text'}, 'empty': {}}
+            elif (i // len(kinds)) % 2 == 0:
                 for q in range(int(rng.integers(8, 13))):          # more than ten structures in one dictionary
                     x['entry %02d' % q] = make_structure(rng, 'obs')
             before = doc_any(x)
